@@ -838,11 +838,9 @@ Lemma range_start_refines vr s st f : inv s ->
 Proof.
   intros Hinv. pose proof (inv_levels_ok s Hinv) as Hok. pose proof (inv_sorted0 s Hinv) as Hs0.
   unfold Skip.range_start. rewrite pairs_mkp, s_from_mkp by auto.
-  assert (Hempty : (len s =? 0)%Z = true -> Some [] = Some (visit f 0 (mkp (gv s) ((if mem st (keys0 s) then [st] else []) ++ highs st (keys0 s))))).
-  { intros El. apply (inv_len0 s Hinv) in El. rewrite El. reflexivity. }
-  destruct (match vr with Plain => (len s =? 0)%Z | WithCmp => false end) eqn:Eg.
-  { destruct vr; [auto|discriminate]. }
-  clear Eg Hempty. rewrite (inv_head_ok s Hinv). cbn [negb].
+  destruct (len s =? 0)%Z eqn:El.
+  { apply (inv_len0 s Hinv) in El. rewrite El. reflexivity. }
+  clear El. rewrite (inv_head_ok s Hinv). cbn [negb].
   pose proof Hinv as (A & B & C & D & E & F & G & H).
   rewrite search_spec by (auto; left; reflexivity). rewrite hit_iff_level0 by (auto; lia).
   fold (keys0 s). rewrite find_mem.
@@ -1015,7 +1013,7 @@ Definition cleared : sk := mk (repeat [] maxL) [] 1 0 false.
 Lemma maxL_S : exists n, maxL = S n.
 Proof. exists (Nat.pred maxL). pose proof maxL_pos'. lia. Qed.
 
-Lemma step_zero_cmp o rnd : pre_init_ok K V false o = true ->
+Lemma step_zero_cmp o rnd : pre_init_ok K V o = true ->
   match o with
   | OInit => True
   | OClear => step WithCmp zero o rnd = Some (cleared, RUnit, rnd)
@@ -1027,7 +1025,7 @@ Proof.
     eexists; (split; [reflexivity|]); split; reflexivity.
 Qed.
 
-Lemma step_cleared_cmp o rnd : pre_init_ok K V true o = true ->
+Lemma step_cleared_cmp o rnd : pre_init_ok K V o = true ->
   match o with
   | OInit => True
   | _ => exists r, step WithCmp cleared o rnd = Some (cleared, r, rnd) /\ fst (s_step [] o) = [] /\ erase r = erase (snd (s_step [] o))
@@ -1041,11 +1039,11 @@ Proof.
     eexists; (split; [reflexivity|]); split; reflexivity.
 Qed.
 
-Lemma run_cleared_cmp : forall ops rnd, cmp_scope K V true ops = true ->
+Lemma run_cleared_cmp : forall ops rnd, cmp_scope K V ops = true ->
   exists rs, run WithCmp cleared ops rnd = Some rs /\ map erase rs = map erase (s_run [] ops).
 Proof.
   induction ops as [|o t IH]; intros rnd Hsc; [exists []; split; reflexivity|].
-  assert (Hinit : o = OInit \/ (pre_init_ok K V true o = true /\ cmp_scope K V true t = true /\ o <> OInit)).
+  assert (Hinit : o = OInit \/ (pre_init_ok K V o = true /\ cmp_scope K V t = true /\ o <> OInit)).
   { destruct o; cbn [Skip.cmp_scope Skip.pre_init_ok orb andb] in Hsc |- *; auto; try discriminate; right; repeat split; auto; discriminate. }
   destruct Hinit as [->|(Hp & Ht & Hne)].
   - destruct (run_refines WithCmp t fresh [] rnd) as (rs & E' & Ers).
@@ -1059,7 +1057,7 @@ Proof.
     destruct (IH rnd Ht) as (rs & E' & Ers). rewrite E'. exists (r :: rs). split; [reflexivity|]. cbn [map]. rewrite Er, Ers. reflexivity.
 Qed.
 
-Theorem run_zero_cmp : forall ops rnd, cmp_scope K V false ops = true ->
+Theorem run_zero_cmp : forall ops rnd, cmp_scope K V ops = true ->
   exists rs, run WithCmp zero ops rnd = Some rs /\ map erase rs = map erase (s_run [] ops).
 Proof.
   induction ops as [|o t IH]; intros rnd Hsc; [exists []; split; reflexivity|].
@@ -1082,12 +1080,6 @@ Proof.
   cbn [Skip.run Skip.s_run]. rewrite E. cbn [Skip.s_step].
   destruct (run_cleared_cmp t rnd Hsc) as (rs & E' & Ers). rewrite E'. exists (RUnit :: rs). split; [reflexivity|]. cbn [map]. rewrite Ers. reflexivity.
 Qed.
-
-(* the finding: on the untouched zero value of the cmp variant RangeWithStart / RangeWithRange panic *)
-Lemma zero_cmp_range_start_panics st f rnd : step WithCmp zero (ORangeStart st f) rnd = None.
-Proof. reflexivity. Qed.
-Lemma zero_cmp_range_range_panics st e f rnd : step WithCmp zero (ORangeRange st e f) rnd = None.
-Proof. reflexivity. Qed.
 
 (* ================================================================ the invariant along every sequence *)
 Local Notation exec := (exec K V cmp v0).
@@ -1163,7 +1155,7 @@ Theorem skip_refines_omap K V cmp v0 : total_order K cmp -> forall ops rnd,
   exists rs, run K V cmp v0 Plain zero ops rnd = Some rs /\ map (erase K V) rs = map (erase K V) (s_run K V cmp [] ops).
 Proof. intros (A & B & C). apply run_zero_plain; auto. Qed.
 
-Theorem skipcmp_refines_omap K V cmp v0 : total_order K cmp -> forall ops rnd, cmp_scope K V false ops = true ->
+Theorem skipcmp_refines_omap K V cmp v0 : total_order K cmp -> forall ops rnd, cmp_scope K V ops = true ->
   exists rs, run K V cmp v0 WithCmp zero ops rnd = Some rs /\ map (erase K V) rs = map (erase K V) (s_run K V cmp [] ops).
 Proof. intros (A & B & C). apply run_zero_cmp; auto. Qed.
 
@@ -1208,10 +1200,6 @@ Proof.
   intros (A & B & C) vr s key val mode rnd I. cbv zeta. rewrite (s_mem_pairs K cmp A V v0).
   apply set_refines; auto.
 Qed.
-
-Theorem zero_cmp_range_start_panics_closed K V cmp v0 st f rnd :
-  step K V cmp v0 WithCmp zero (ORangeStart st f) rnd = None /\ forall e, step K V cmp v0 WithCmp zero (ORangeRange st e f) rnd = None.
-Proof. split; reflexivity. Qed.
 
 (* a zero-value SkipList answers every single method as the empty map, before and after Clear *)
 Theorem zero_value_is_empty K V cmp v0 : total_order K cmp -> forall o rnd,
